@@ -201,6 +201,13 @@ def extract_lt(tree):
   if not (_returns(last) is not None and _is_native_lt(_returns(last), l, r)):
     raise TranslatorError('lt: does not end in `return left < right`')
   dispatch.append('native')
+  if dict_keys == 'sorted-by-lt':
+    sk = common.find_func(tree, '_sorted_keys')
+    src = ast.unparse(sk)
+    arg = sk.args.args[0].arg
+    if not (f'sorted({arg}.keys(), key=functools.cmp_to_key(' in src
+            and 'lambda x, y: -1 if lt(x, y) else 1 if lt(y, x) else 0' in src):
+      raise TranslatorError('_sorted_keys: not `sorted(d.keys(), key=cmp_to_key(<three-way lt>))`')
   return {'dispatch': dispatch, 'prim_types': prim_types, 'dict_key_cmp': dict_key_cmp,
           'dict_keys': dict_keys}
 
@@ -211,13 +218,17 @@ def _dict_branch(node, l, r):
   for s in node.body:
     if isinstance(s, ast.Assign) and isinstance(s.value, ast.Call):
       f = _name(s.value.func)
+      k = None
       if f in ('list', 'sorted') and s.value.args:
         a = s.value.args[0]
         if isinstance(a, ast.Call) and isinstance(a.func, ast.Attribute) and a.func.attr == 'keys':
           k = 'position' if f == 'list' else 'sorted'
-          if keys_kind not in (None, k):
-            raise TranslatorError('lt: dict branch enumerates the two key lists differently')
-          keys_kind = k
+      elif f == '_sorted_keys' and len(s.value.args) == 1 and _name(s.value.args[0]) in (l, r):
+        k = 'sorted-by-lt'
+      if k is not None:
+        if keys_kind not in (None, k):
+          raise TranslatorError('lt: dict branch enumerates the two key lists differently')
+        keys_kind = k
   if keys_kind is None:
     raise TranslatorError('lt: dict branch: key enumeration not recognised')
   loops = [s for s in node.body if isinstance(s, ast.For)]
@@ -287,8 +298,16 @@ def extract_hash(dtree, ltree, otree):
   src = ast.unparse(common.find_func(ocls, 'sym_eq'))
   eq_exact = 'type(self) is type(other)' in src and 'base.eq(self._sym_attributes, other._sym_attributes)' in src
   src = ast.unparse(common.find_func(ocls, 'sym_lt'))
-  lt_same = ('type(self) is not type(other)' in src
-             and 'base.lt(self._sym_attributes, other._sym_attributes)' in src)
+  if 'type(self) is not type(other)' not in src:
+    lt_same = 'unknown'
+  elif ('list(lattrs.keys()) == list(rattrs.keys())' in src
+        and 'base.lt(list(lattrs.sym_values()), list(rattrs.sym_values()))' in src
+        and 'base.lt(lattrs, rattrs)' in src):
+    lt_same = 'declaration-order'
+  elif 'base.lt(self._sym_attributes, other._sym_attributes)' in src:
+    lt_same = 'as-dict'
+  else:
+    lt_same = 'unknown'
   return dict_comb, eq_exact, lt_same
 
 
@@ -305,6 +324,13 @@ def run():
   _, ltree = common.parse_source(LIST)
   _, otree = common.parse_source(OBJECT)
   dict_comb, eq_exact, lt_same = extract_hash(dtree, ltree, otree)
+  # base.sym_hash: are plain list / tuple / dict hashed structurally (fix F16)?
+  hsrc = ast.unparse(common.find_func(tree, 'sym_hash'))
+  plain = [k for k in ('list', 'tuple', 'dict') if f'isinstance(x, {k})' in hsrc]
+  if plain and not ('sym_hash((Symbolic.ListType, tuple([sym_hash(e) for e in x])))' in hsrc
+                    and 'hash(tuple([sym_hash(e) for e in x]))' in hsrc
+                    and 'sym_hash((Symbolic.DictType, frozenset(((k, sym_hash(v)) for k, v in x.items() if v != pg_typing.MISSING_VALUE))))' in hsrc):
+    raise TranslatorError('base.sym_hash: plain-container branches have an unexpected shape')
 
   rank = {r: s for r, s, _ in rows}
   L = []
@@ -330,8 +356,9 @@ def run():
   L.append('def gtIsSwappedLt : Bool := ' + common.lean_bool(gt_ok))
   L.append('def neIsNotEq : Bool := ' + common.lean_bool(ne_ok))
   L.append('def dictHashComb : String := ' + common.lean_str(dict_comb))
+  L.append('def symHashPlain : List String := ' + common.lean_list([common.lean_str(k) for k in plain]))
   L.append('def objectEqExactType : Bool := ' + common.lean_bool(eq_exact))
-  L.append('def objectLtSameClassOnly : Bool := ' + common.lean_bool(lt_same))
+  L.append('def objectLtFields : String := ' + common.lean_str(lt_same))
   L.append('')
   L.append('end Pg.C06.Gen')
   L.append('')
@@ -339,7 +366,7 @@ def run():
       'sources': {p: common.sha(p) for p in (BASE, DICT, LIST, OBJECT)},
       'type_order_rows': [{'row': r, 'rank': s, 'line': ln} for r, s, ln in rows],
       'lt': ltf, 'gt_is_swapped_lt': gt_ok, 'ne_is_not_eq': ne_ok, 'dict_hash_comb': dict_comb,
-      'object_eq_exact_type': eq_exact, 'object_lt_same_class_only': lt_same,
+      'object_eq_exact_type': eq_exact, 'sym_hash_plain': plain, 'object_lt_same_class_only': lt_same,
   }
   changed = common.write_gen('C06Order', '\n'.join(L), sidecar)
   return {'changed': changed, 'sidecar': sidecar}
